@@ -396,11 +396,12 @@ def history_judge(case, impl_line, prop):
     groups = group_events(ev)
     by_off = {g[1]: g for g in groups}
     ctor = {e[1]: e[2] for e in ev if e[0] == "construct"}
-    def table_constructs(first, last):
+    def table_constructs(first, last, pid):
         out = []
         for k in range(first, last + 1):
             g = by_off.get(k * 188)
-            if g: out += [e[2] for e in g[2] if e[0] == "construct" and e[2][0] != "bypid"]
+            if g and Pkt(data[k * 188:(k + 1) * 188]).pid == pid:      # transmissions on different PIDs may be interleaved
+                out += [e[2] for e in g[2] if e[0] == "construct" and e[2][0] != "bypid"]
         return out
     ideal_ver = {}            # table pid -> version last applied (ideal)
     ideal_pat = []            # [(pn, pid)]
@@ -425,7 +426,7 @@ def history_judge(case, impl_line, prop):
             # requests are made there); a section spanning packets causes no request in its own start packet
             shared = prev_last.get(pid) == rc["first"] and rc["last"] > rc["first"]
             prev_last[pid] = rc["last"]
-            cons = table_constructs(rc["first"] + (1 if shared else 0), rc["last"])
+            cons = table_constructs(rc["first"] + (1 if shared else 0), rc["last"], pid)
             if rc["kind"] == "dmg":
                 sv = started_version(data, rc["first"])
                 if sv is not None: started_not_applied.setdefault(pid, set()).add(sv)
